@@ -16,6 +16,16 @@ package types
 //@   ensures valid: err == nil ==> paramsOK(p)
 //@ end
 
+// Deposit of a binding as genesis validation sees it (C12): every deposit the handlers can leave on a binding is
+// accepted - in particular the EMPTY one of a disabled binding whose owner took the deposit back (RefundDeposit stores
+// Coins{}); only malformed or negative coin sets are refused.
+//@ func ValidateServiceDeposit(deposit)
+//@   property C12
+//@   returns err
+//@   ensures accepts: ufb("coins_valid", deposit) && (forall d:Str :: amt(deposit, d) >= 0) ==> err == nil
+//@   ensures refuses: err == nil ==> ufb("coins_valid", deposit) && (forall d:Str :: amt(deposit, d) >= 0)
+//@ end
+
 // JSON syntax check of the options string (assumed: pure)
 //@ func ValidateOptions(options)
 //@   property C07
